@@ -406,6 +406,10 @@ func (ip *Interp) Call(fi *core.FuncInfo, args []*Value) (*Value, string) {
 		return nil, fr.why
 	}
 	if fr.ret == nil {
+		// a procedure (it stores into the byte slice it was handed): nothing to hand back
+		if fi.Decl.Type.Results == nil || len(fi.Decl.Type.Results.List) == 0 {
+			return &Value{V: Zero(1)}, ""
+		}
 		return nil, "no return value"
 	}
 	return fr.ret, ""
@@ -661,11 +665,21 @@ func (ip *Interp) offset(fr *frame, e ast.Expr) (int, bool) {
 			}
 		}
 	case *ast.BinaryExpr:
-		if v.Op == token.ADD {
+		if v.Op == token.ADD || v.Op == token.SUB {
 			a, ok1 := ip.offset(fr, v.X)
 			b, ok2 := ip.offset(fr, v.Y)
 			if ok1 && ok2 {
+				if v.Op == token.SUB {
+					return a - b, true
+				}
 				return a + b, true
+			}
+		}
+	case *ast.CallExpr:
+		// len(b) of a byte slice whose length is known
+		if id, ok := v.Fun.(*ast.Ident); ok && id.Name == "len" && len(v.Args) == 1 {
+			if bv := ip.expr(fr, v.Args[0], nil); bv != nil && bv.B != nil && bv.B.Len > 0 {
+				return bv.B.Len, true
 			}
 		}
 	}
